@@ -20,7 +20,7 @@ def run_purefn(ctx, sections, n, oracle_prefixes, profiles=("dev", "release")):
     if "release" in profiles:
         ok2, log2 = cargo_build(ctx, ["purefn"], release=True)
     ctx.add_ob("build:harness-purefn", "build", ok and ok2, "" if ok and ok2 else (log + log2)[-3000:])
-    if not (ok and ok2) or not build_driver(ctx):
+    if not (ok and ok2) or not build_driver(ctx, "pure"):
         return False
     for profile in profiles:
         for section in sections:
